@@ -387,6 +387,7 @@ func init() {
 				// what the accepted calls set, book-kept from the call sequence alone (a call that returned an
 				// error sets nothing): the envelope must be exactly that
 				led := addrLedger(m, spc.Addr)
+				ledFull := addrLedgerOf(m, spc.Addr, true)
 				var ledRcpts []string
 				for _, k := range []int{2, 3, 4} {
 					ledRcpts = append(ledRcpts, led[k]...)
@@ -450,6 +451,18 @@ func init() {
 					if len(addrs) != len(want) {
 						c.Violate("c06-field-mismatch", fmt.Sprintf("%s has %d addresses, %d were set", hk.name, len(addrs), len(want)), spc)
 						continue
+					}
+					// ... and exactly the names and addresses the accepted calls set, book-kept from the call
+					// sequence and parsed by net/mail (not read back from the Msg)
+					ledKind := map[string]int{"From": 0, "To": 2, "Cc": 3, "Reply-To": 5}[hk.name]
+					ledVals := ledFull[ledKind]
+					if hk.name == "From" && len(ledVals) == 0 {
+						ledVals = ledFull[1]
+					}
+					if lnames, laddrs, lerr := parsedNames(strings.Join(ledVals, ", ")); lerr == nil && len(ledVals) > 0 {
+						if strings.Join(laddrs, "\x00") != strings.Join(addrs, "\x00") || strings.Join(lnames, "\x00") != strings.Join(names, "\x00") {
+							c.Violate("c06-not-what-was-set", fmt.Sprintf("%s renders as %q %q, the accepted calls set %q %q", hk.name, names, addrs, lnames, laddrs), spc)
+						}
 					}
 					for k := range want {
 						if addrs[k] != want[k].Address || names[k] != want[k].Name {
@@ -521,9 +534,18 @@ func checkParams(c *Ctx, sc *SmtpScenario, verb, rest string) {
 // empty From list changes nothing), a call with an unparseable value returns an error and changes
 // nothing, the IgnoreInvalid variants keep the parseable values, Add* appends one address.
 func addrLedger(m *mail.Msg, ops []AddrOp) map[int][]string {
+	return addrLedgerOf(m, ops, false)
+}
+
+// addrLedgerOf: with full = true the ledger holds net/mail's own rendering of every accepted value
+// (display name and address) instead of the bare address
+func addrLedgerOf(m *mail.Msg, ops []AddrOp, full bool) map[int][]string {
 	led := map[int][]string{}
 	for _, a := range ops {
-		oks, _, bares := parseAll(m, a)
+		oks, strs, bares := parseAll(m, a)
+		if full {
+			bares = strs
+		}
 		var good []string
 		all := true
 		for i, o := range oks {
